@@ -49,25 +49,25 @@ const RULE_A: &str = "one evaluation = one simulated run of the whole agent (fre
 
 pub fn spec(prop: &str) -> Spec {
     let (scen, q, t): (Vec<Scen>, u64, u64) = match prop {
-        "C01" => (vec![s("proxy:C01", 1)], 1500, 60000),
-        "C02" => (vec![s("proxy:C02", 1)], 1200, 40000),
-        "C03" => (vec![s("proxy:C03", 1)], 1200, 40000),
-        "C04" => (vec![s("proxy:C04", 1)], 1200, 40000),
-        "C05" => (vec![s("proxy:C05", 1)], 1200, 40000),
+        "C01" => (vec![s("proxy:C01", 1)], 1500, 300000),
+        "C02" => (vec![s("proxy:C02", 1)], 1200, 200000),
+        "C03" => (vec![s("proxy:C03", 1)], 1200, 300000),
+        "C04" => (vec![s("proxy:C04", 1)], 1200, 300000),
+        "C05" => (vec![s("proxy:C05", 1)], 1200, 300000),
         "C06" => (vec![s("ebpf:C06", 1)], 400, 20000),
-        "C07" => (vec![s("proxy:C07", 1)], 1500, 60000),
-        "C08" => (vec![s("crash:C08", 1)], 16, 500),
-        "C09" => (vec![s("keeper:C09", 1)], 1000, 40000),
-        "C10" => (vec![s("keeper:C10", 1)], 1500, 60000),
-        "C11" => (vec![s("proxy:C11", 1)], 1000, 30000),
-        "C12" => (vec![s("keeper:C12", 1)], 800, 30000),
-        "C13" => (vec![s("hostile:C13", 1)], 800, 30000),
-        "C14" => (vec![s("proxy:C14", 1)], 1200, 40000),
-        "C15" => (vec![s("proxy:C15", 1)], 800, 20000),
-        "C16" => (vec![s("provision:C16", 1)], 1200, 40000),
-        "C17" => (vec![s("setup:C17", 1)], 160, 5000),
-        "C18" => (vec![s("telemetry:C18", 1)], 400, 12000),
-        "C19" => (vec![s("disk:C19", 1)], 600, 20000),
+        "C07" => (vec![s("proxy:C07", 1)], 1500, 300000),
+        "C08" => (vec![s("crash:C08", 1)], 16, 4000),
+        "C09" => (vec![s("keeper:C09", 1)], 1000, 100000),
+        "C10" => (vec![s("keeper:C10", 1)], 1500, 200000),
+        "C11" => (vec![s("proxy:C11", 1)], 1000, 100000),
+        "C12" => (vec![s("keeper:C12", 1)], 800, 100000),
+        "C13" => (vec![s("hostile:C13", 1)], 800, 150000),
+        "C14" => (vec![s("proxy:C14", 1)], 1200, 300000),
+        "C15" => (vec![s("proxy:C15", 1)], 800, 300000),
+        "C16" => (vec![s("provision:C16", 1)], 1200, 300000),
+        "C17" => (vec![s("setup:C17", 1)], 160, 40000),
+        "C18" => (vec![s("telemetry:C18", 1)], 400, 20000),
+        "C19" => (vec![s("disk:C19", 1)], 600, 60000),
         _ => (vec![], 0, 0),
     };
     if prop == "C06" {
